@@ -28,7 +28,9 @@ Oracle    with end = e (None: ledger end), period = d <= date < end, from the fu
                 carry the difference, currency conversions included (without CLOSE only (iv) is required);
           (iv)  every returned Transaction balances: interpolate.compute_residual(postings) is small for
                 the tolerances interpolate.infer_tolerances gives (SELECT through the `entry` column, PRINT
-                directly) -- hence the weights of all returned postings total zero: whatever (ii)/(iii)
+                directly); and at the level of what SELECT returns (all filters): the `weight` column of
+                every returned posting, synthesised ones included, == convert.get_weight(posting), and
+                the returned weights of every returned transaction total zero within tolerance -- hence the weights of all returned postings total zero: whatever (ii)/(iii)
                 moved is carried by Equity postings;
           (v)   result with filter F == the rows of the clause-only result that satisfy F (F evaluated
                 by the reference on date / narration with NULL semantics): the clauses apply first, in
@@ -76,7 +78,7 @@ ONE = datetime.timedelta(days=1)
 BEFORE = datetime.date(2019, 6, 1)
 AFTER = datetime.date(2021, 1, 1)
 KINDS = ['select', 'balances', 'journal', 'print']
-SELECT_COLS = 'date flag narration account position price id entry'.split()
+SELECT_COLS = 'date flag narration account position price id entry weight'.split()
 NARR_RE = 'buy|conv|Opening|Conversion'
 
 # name -> (FROM expression builder, reference on (date, narration-or-None) -> True/False/None)
@@ -358,6 +360,39 @@ def check_clause_only(led, kind, result, d, e, clear, stats):
     return out
 
 
+def check_weights(led, result, ctext, stats):
+    """(iv) at the level of what the query returns: the `weight` of every returned posting (synthesised
+    ones included) is beancount's convert.get_weight of that posting, and the returned weights of every
+    returned transaction total zero within tolerance."""
+    out = []
+    by_entry = collections.OrderedDict()
+    for r in result:
+        entry, account, pos, price, weight = r[7], r[3], r[4], r[5], r[8]
+        cands = [p for p in entry.postings if p.account == account and pos_of(p) == pos and p.price == price]
+        stats['weights_compared'] += 1
+        if price is not None and not price.number:
+            stats['zero_price_postings_weighed'] += 1
+        if not cands:
+            out.append(('period:originals', f'{ctext}: returned row {account} {pos} is not a posting of its own entry {entry.date} "{entry.narration}"'))
+            continue
+        exp = convert.get_weight(cands[0])
+        if weight != exp:
+            out.append(('period:weight', f'{ctext}: posting {account} {pos}{" @ " + str(price) if price else ""} of {entry.date} {entry.flag} '
+                        f'"{entry.narration}" has weight {weight}, beancount convert.get_weight gives {exp}'))
+        by_entry.setdefault(id(entry), (entry, []))[1].append(weight)
+    for entry, weights in by_entry.values():
+        if len(weights) != len(entry.postings):
+            continue
+        stats['transactions_weighed'] += 1
+        res = Inv()
+        for w in weights:
+            res.add_amount(w)
+        if not res.is_small(interpolate.infer_tolerances(entry.postings, led.options)):
+            out.append(('period:unbalanced-transaction', f'{ctext}: the returned weights of transaction {entry.date} {entry.flag} '
+                        f'"{entry.narration}" total {res}, expected zero within tolerance'))
+    return out
+
+
 def filter_expected(led, kind, fname, base):
     """(v): what the clause-only result(s) reduce to under filter F."""
     f = FILTERS[fname][1]
@@ -402,6 +437,9 @@ def run_config(led, d, e, clear, stats, results=None):
                 results[kind, fname] = ('ok', result)
             stats['executed'] += 1
             stats['result_rows'] += len(result)
+            if kind == 'select':
+                for fp, msg in check_weights(led, result, ctext, stats):
+                    out.append((fp, msg, kind, fname))
             if fname == 'none':
                 base[kind] = result
                 for fp, msg in check_clause_only(led, kind, result, d, e, clear, stats):
@@ -704,6 +742,9 @@ def run(ctx):
         'income_totals_cut_by_OPEN': c['income_activity_cut_by_open'],
         'income_totals_cleared_nonempty': c['cleared_nonempty_activity'],
         'transactions_residual_checked': c['transactions_balanced'],
+        'returned_weights_compared': c['weights_compared'],
+        'returned_zero_price_postings_weighed': c['zero_price_postings_weighed'],
+        'returned_transactions_weight_totalled': c['transactions_weighed'],
         'closed_reports_totalled_at_cost': c['closed_reports_totalled'],
         'closed_reports_where_equity_carries_nonzero': c['closed_reports_with_nonzero_equity'],
         'filter_cases_cutting_rows': c['filters_that_cut'],
